@@ -113,7 +113,7 @@ def _setup(b, case):
 c.setup(_setup)
 c.cases([{'shape': s} for s in hours_alts()])
 c.loop(0, ['forall(lambda h: iff(select(self._hour_set, h), 0 <= h and h < _i and field_matches(pattern, h)))'],
-       modifies=['self._hour_set'], index='_i', keep_index=True)
+       modifies=['self._hour_set'], index='_i', keep_index=True, cut_concrete=True)
 c.ensures('members', 'forall(lambda h: iff(select(self._hour_set, h), 0 <= h and h < 24 and field_matches(pattern, h)))')
 
 c = contract(T, 'TimePattern._init_minute_set', serves=['C11'], modular=True)
@@ -121,7 +121,7 @@ c.effect(_set_effect('_minute_set', 60))
 c.setup(_setup)
 c.cases([{'shape': s} for s in minutes_alts()])
 c.loop(0, ['forall(lambda m: iff(select(self._minute_set, m), 0 <= m and m < _i and field_matches(pattern, m)))'],
-       modifies=['self._minute_set'], index='_i', keep_index=True)
+       modifies=['self._minute_set'], index='_i', keep_index=True, cut_concrete=True)
 c.ensures('members', 'forall(lambda m: iff(select(self._minute_set, m), 0 <= m and m < 60 and field_matches(pattern, m)))')
 
 # ---- end to end: construct with the real constructor, then match(H, M) <=> Den
